@@ -413,10 +413,16 @@ impl<'a> NtpPacket<'a> {
                     }
                 };
 
-                let (packet, cookie) = res_packet?;
+                // The draft identification is checked for packets that fail to decrypt
+                // too: they are still answered (with an NTS NAK), and that answer carries
+                // the draft identification field, which must then fit the request's size.
+                let draft_id_packet = match &res_packet {
+                    Ok((packet, _)) | Err(ParsingError::DecryptError(packet)) => packet,
+                    Err(_) => return res_packet,
+                };
 
-                match packet.draft_id() {
-                    Some(id) if id == v5::DRAFT_VERSION => Ok((packet, cookie)),
+                match draft_id_packet.draft_id() {
+                    Some(id) if id == v5::DRAFT_VERSION => res_packet,
                     received @ (Some(_) | None) => {
                         tracing::debug!(
                             expected = v5::DRAFT_VERSION,
